@@ -25,7 +25,7 @@ RULE = ('Case = network spec (netgen: 2-6 junctions, tanks, pumps, valves, leaks
         'or off the hydraulic grid, so the failing step can be a partial step) x fault plan: none | solver failure '
         'injected at the k-th primary solver call (k anywhere: absolute, inside a re-solve trial, at a partial '
         'step, at the last call; messages iteration limit / singular Jacobian / line search) | genuinely small '
-        'MAXITER (0,1,2,3,5,8); options.hydraulic.trials in {0,1,2,3,8}; backup solver absent / NewtonSolver '
+        'MAXITER (0,1,2,3,5,8) or TIME_LIMIT 0; options.hydraulic.trials in {0,1,2,3,8}; backup solver absent / NewtonSolver '
         'succeeding (real call) / NewtonSolver failing / scipy fsolve (with and without Jacobian); primary solver '
         'NewtonSolver or (1/8) scipy fsolve; convergence_error True/False. Enumerated part: one fixed looped '
         'tank network with a chain gadget off the grid x every solver call k x backup none/ok/fail x '
@@ -104,7 +104,7 @@ def _case(draw, tier):
             'k': draw(st.integers(0, 60)),
             'msg': draw(st.integers(0, 2)), 'backup_msg': draw(st.integers(0, 2)),
             'backup': draw(st.sampled_from(['none', 'none', 'none', 'ok', 'ok', 'fail', 'fail', 'fsolve', 'fsolve_jac'])),
-            'maxiter': draw(st.sampled_from([1, 2, 3, 5, 8, 0])),
+            'maxiter': draw(st.sampled_from([1, 2, 3, 5, 8, 0, -1])),      # -1: TIME_LIMIT 0 instead of an iteration limit
             'conv': draw(st.booleans()),
             'trials': draw(st.sampled_from([0, 1, 2, 3, REF_TRIALS]))}
     return {'net': net, 'gadget': gadget, 'plan': plan}
@@ -166,6 +166,13 @@ def enumerate_cases(tier='quick'):
                            'plan': {'kind': 'none', 'solver': 'newton', 'mode': 'abs', 'k': 0, 'msg': 0,
                                     'backup_msg': 0, 'backup': 'none',
                                     'maxiter': 3, 'conv': conv, 'trials': trials}}
+        # genuine (not injected) failures of every kind the solver can report: iteration limit and wall-clock limit
+        for mi in (0, 1, -1):
+            for backup in ('none', 'fail', 'ok'):
+                for conv in (False, True):
+                    yield {'net': net, 'gadget': gadget,
+                           'plan': {'kind': 'maxiter', 'solver': 'newton', 'mode': 'abs', 'k': 0, 'msg': 0,
+                                    'backup_msg': 0, 'backup': backup, 'maxiter': mi, 'conv': conv, 'trials': 3}}
 
 
 def summarize(case):
@@ -288,12 +295,14 @@ def simulate(spec, cfg, inject_at):
     # (the backup options carry a key the primary options never have: that is how the wrapper tells the calls apart;
     #  BT_MAXITER=100 and xtol=1.49012e-08 are the default values of NewtonSolver and scipy.optimize.fsolve)
     if backup_kind == 'newton':
-        bopts = {'MAXITER': backup_maxiter, 'BT_MAXITER': 100}
+        # (a MAXITER of -1 stands for the solver's wall-clock limit: TIME_LIMIT 0 makes every solve give up at once)
+        bopts = {'MAXITER': backup_maxiter, 'BT_MAXITER': 100} if backup_maxiter >= 0 else {'TIME_LIMIT': 0, 'BT_MAXITER': 100}
     elif backup_kind == 'fsolve':
         bopts = {'xtol': 1.49012e-08}
     else:
         bopts = {'xtol': 1.49012e-08, 'use_jac': True}
-    kw = {'solver': solvers[primary], 'solver_options': {'MAXITER': maxiter} if primary == 'newton' else {},
+    popts = ({'MAXITER': maxiter} if maxiter >= 0 else {'TIME_LIMIT': 0}) if primary == 'newton' else {}
+    kw = {'solver': solvers[primary], 'solver_options': popts,
           'convergence_error': conv, 'HW_approx': spec['opts']['hw_approx'],
           'backup_solver': solvers[backup_kind] if backup else None, 'backup_solver_options': bopts}
     sim = wntr.sim.WNTRSimulator(wn)
